@@ -506,6 +506,8 @@ type RespOpts struct {
 	Huge         bool
 	ChunkExt     bool // chunk extensions on chunk-size lines (a recipient ignores them)
 	OtherInterim bool // interim responses other than 100 Continue (102, 103) before the final one
+	// KeepAliveUntilClose: a read-until-close response may carry "Connection: keep-alive" (it closes all the same)
+	KeepAliveUntilClose bool
 }
 
 // GenResp draws a well-formed response to a request with the given method.
@@ -572,8 +574,16 @@ func GenResp(t *rapid.T, idx int, method string, o RespOpts) *wire.Resp {
 			lines = append(lines, wire.KV{K: "Trailer", V: nm})
 		}
 	}
-	if r.Framing == wire.FrUntilClose && rapid.Bool().Draw(t, "connClose") {
-		lines = append(lines, wire.KV{K: "Connection", V: "close"})
+	if r.Framing == wire.FrUntilClose {
+		switch rapid.IntRange(0, 3).Draw(t, "connClose") {
+		case 0, 1:
+			lines = append(lines, wire.KV{K: "Connection", V: "close"})
+		case 2:
+			if o.KeepAliveUntilClose {
+				// a server that announces keep-alive and then gives no length: the body still ends where the connection ends
+				lines = append(lines, wire.KV{K: "Connection", V: "keep-alive"})
+			}
+		}
 	}
 	r.Body = Body(n, idx, salt, flavor)
 	r.BodyLen = n
